@@ -325,6 +325,40 @@ def _vec_space(ctx, adt, ms, r_same, r_range):
                                                    'clamp limits are not (bounds[i].0, bounds[i].1) of the dimension being clamped', loc=eb.loc(bi)))
         if n == 0:
             r_same.violations.append(Violation('C11', 'C11.same', eb.path, 'no-clamp', 'no clamp found in enforce_bounds (unrecognised shape)', loc=eb.loc(0)))
+        # every dimension is clamped: inside the loop the clamp is reached on every path through an iteration,
+        # except behind an index-range test (i < bounds.len())
+        for bi, t in eb.calls():
+            if t['func'].get('path') != 'core::f64::<impl f64>::clamp':
+                continue
+            loops = [L for L in fn.loops() if bi in L['body']]
+            if not loops:
+                r_same.violations.append(Violation('C11', 'C11.same', eb.path, 'clamp-not-in-loop', 'the clamp is not inside a loop over the dimensions', loc=eb.loc(bi)))
+                continue
+            L = min(loops, key=lambda l: len(l['body']))
+            outside = frozenset(x for x in range(fn.nb) if x not in L['body'])
+            # edges that skip because of an index-range test are allowed
+            allowed = set()
+            for swb in L['body']:
+                si = fn.switch_info(swb)
+                if si is None:
+                    continue
+                terms, tmap, other = si
+                for q in terms:
+                    if q[0] == 'binop' and q[1] in ('Lt', 'Le', 'Gt', 'Ge') and \
+                            any(m[0] == 'call' and m[1].endswith('::len') for side in (q[2], q[3]) for m in side):
+                        # only the edge on which the range test FAILS is a legitimate skip
+                        lt_true_is_other = (q[1] in ('Lt', 'Le') and any(m[0] == 'call' and m[1].endswith('::len') for m in q[3])) or \
+                                           (q[1] in ('Gt', 'Ge') and any(m[0] == 'call' and m[1].endswith('::len') for m in q[2]))
+                        if set(tmap.keys()) == {'0'} and lt_true_is_other:
+                            allowed.add((swb, tmap['0']))
+            r = fn.reachable(L['header'], removed=frozenset(allowed), stop=outside | frozenset([bi]))
+            skipped = any(src in r and src != bi for (src, _d) in L['back_edges'])
+            r_same.inst('%s: every dimension is clamped (no conditional skip)' % eb.path, ok=not skipped, site=eb.loc(bi))
+            if skipped:
+                r_same.violations.append(Violation(
+                    'C11', 'C11.same', eb.path, 'clamp-skipped',
+                    'a dimension can be left unclamped by enforce_bounds although satisfies_bounds tests every dimension: '
+                    'after enforcing, the bounds check can still reject the state', loc=eb.loc(bi)))
     # satisfies_bounds: comparisons value_i (+/- eps) > bounds[i].1  or  < bounds[i].0 lead to `false`
     if sb is not None:
         _cmp_roles(ctx, sb, r_same, need_index=True)
